@@ -15,6 +15,7 @@ class C16(Prop):
     id = "C16"
     prop_file = "Props/C16"
     level = "proof"
+    extended_driver = True
     quick_n = 2000
     thorough_n = 50000
     case_timeout = 20.0
@@ -76,8 +77,10 @@ class C16(Prop):
         RFC 4512 generator produces must satisfy them, otherwise the theorems say nothing about it."""
         if not ctx["build"].ok:
             return []
+        if not ctx["build"].driverx_ok:
+            return [({"kind": "build", "mode": "build"}, "the extended model driver (Extract/DriverSchema.v) failed to build")]
         cases = ctx["cases"]
-        ans = model.run_batch([[WF_CMD[c["kind"]], to_list(c["kind"], c["v"])] for c in cases])
+        ans = model.run_batch([[WF_CMD[c["kind"]], to_list(c["kind"], c["v"])] for c in cases], extended=True)
         out = []
         self.covered = 0
         for c, a in zip(cases, ans):
